@@ -68,9 +68,9 @@ func verifSeedDecoder(i int) (*PathDecoder, verifSeed) {
 
 // C11/C04 (G): the Decoder-level lookups on a path whose context holds the targets and origins the
 // real collectors produced for the seed (as a language server keeps them), at any cursor position.
-func VerifP_C01C02C04C05C11_Lookups_N() int            { return len(verifSeedList()) }
-func VerifP_C01C02C04C05C11_Lookups_Name(i int) string { return verifSeedList()[i].name }
-func VerifP_C01C02C04C05C11_Lookups(i int) {
+func VerifP_C01C02C03C04C05C11_Lookups_N() int            { return len(verifSeedList()) }
+func VerifP_C01C02C03C04C05C11_Lookups_Name(i int) string { return verifSeedList()[i].name }
+func VerifP_C01C02C03C04C05C11_Lookups(i int) {
 	s := verifSeedList()[i]
 	D := verifBound("D", 2, 6)
 	f := verifStretch(s.src, vf, D, 0)
@@ -128,6 +128,19 @@ func VerifP_C01C02C04C05C11_Lookups(i int) {
 			}
 		}
 		os := dd.ReferenceOriginsTargetingPos(path, vf, pos)
+		// history independence: the same two lookups, asked again after each other, say the same
+		ts2, err2 := dd.ReferenceTargetsForOriginAtPos(path, vf, pos)
+		verifAssert((err == nil) == (err2 == nil), "C03:definition-lookup-repeatable-after-find-references"+at)
+		if err == nil && err2 == nil {
+			verifAssert(len(ts) == len(ts2), "C03:definition-lookup-repeatable-after-find-references"+at)
+			for k := range ts {
+				if k < len(ts2) {
+					verifAssert(verifSameRange(ts[k].Range, ts2[k].Range) && ts[k].Range.Filename == ts2[k].Range.Filename, "C03:definition-lookup-repeatable-after-find-references"+at)
+				}
+			}
+		}
+		os2 := dd.ReferenceOriginsTargetingPos(path, vf, pos)
+		verifAssert(len(os) == len(os2), "C03:find-references-repeatable"+at)
 		for k, o := range os {
 			verifAssert(verifRealRange(vf, o.Range), "C02:lookup-origins-range"+at)
 			if k > 0 {
@@ -838,6 +851,33 @@ func VerifP_C07_LabelCompletion(i int) {
 	verifReach("end")
 }
 
+// Completion with required-field pre-filling switched on (a decoder option of the language
+// server): the block-carrying seeds (SB, and those of SA that start with a block), every layout,
+// every cursor; edit ranges and text forms as in the driver below.
+func verifPrefillSeeds() []int {
+	var out []int
+	for i, s := range verifSeedList() {
+		if s.schema == 2 || strings.HasPrefix(s.src, "blk") || strings.HasPrefix(s.src, "nolabel") {
+			out = append(out, i)
+		}
+	}
+	return out
+}
+func VerifP_C01C02C06_CompletionPrefill_N() int { return len(verifPrefillSeeds()) }
+func VerifP_C01C02C06_CompletionPrefill_Name(i int) string {
+	return verifSeedList()[verifPrefillSeeds()[i]].name
+}
+func VerifP_C01C02C06_CompletionPrefill(i int) {
+	d, _ := verifSeedDecoder(verifPrefillSeeds()[i])
+	d.PrefillRequiredFields = true
+	pos := verifAnyPos(vf)
+	cs, err := d.CompletionAtPos(context.Background(), vf, pos)
+	if err == nil {
+		gCheckCandidatesFrom(cs, pos, 0)
+	}
+	verifReach("end")
+}
+
 func VerifP_C01C02C04C05C06C08_Completion_N() int            { return len(verifSeedList()) }
 func VerifP_C01C02C04C05C06C08_Completion_Name(i int) string { return verifSeedList()[i].name }
 func VerifP_C01C02C04C05C06C08_Completion(i int) {
@@ -854,6 +894,7 @@ func VerifP_C01C02C04C05C06C08_Completion(i int) {
 			verifCheckSelfCandidates(d, verifOracleSchema(i), pos, cs)
 			verifCheckArgCandidates(d, pos, cs)
 			verifCheckFunctionCandidates(d, pos, cs)
+			verifCheckUnaryOperandCandidates(d, pos, cs)
 		}
 	})
 	verifNoWrites("C04:completion-writes", true)
@@ -1921,6 +1962,7 @@ func VerifP_C01C02C04C05C20_Signature(i int) {
 			verifAssert(int(sig.ActiveParameter) < len(sig.Parameters) || len(sig.Parameters) == 0, "C20:active-parameter-valid"+verifCursorTag())
 		}
 		if err == nil {
+			verifCheckSignatureShape(d, sig)
 			verifCheckSignature(d, pos, sig)
 		}
 	})
@@ -2008,6 +2050,64 @@ func verifCheckFunctionCandidates(d *PathDecoder, pos hcl.Pos, cs lang.Candidate
 	}
 }
 
+// verifCheckUnaryOperandCandidates: with the cursor in the half-typed operand of a unary operator
+// that is the whole value of a top-level attribute (`a = !v`, `a = -va`), the expected type is the
+// operator's operand type (bool for `!`, number for `-`), whatever the attribute expects: every
+// function candidate's return type converts to it, and every reference candidate's declaration
+// fits it (or is of unknown/dynamic type, or contains a nested declaration).
+func verifCheckUnaryOperandCandidates(d *PathDecoder, pos hcl.Pos, cs lang.Candidates) {
+	body, ok := d.pathCtx.Files[vf].Body.(*hclsyntax.Body)
+	if !ok || d.pathCtx.Schema == nil {
+		return
+	}
+	at := verifCursorTag()
+	for name, attr := range body.Attributes {
+		as, ok := d.pathCtx.Schema.Attributes[name]
+		if !ok {
+			continue
+		}
+		if _, isAny := as.Constraint.(schema.AnyExpression); !isAny {
+			continue
+		}
+		un, ok := attr.Expr.(*hclsyntax.UnaryOpExpr)
+		if !ok || un.Op == nil {
+			continue
+		}
+		st, ok := un.Val.(*hclsyntax.ScopeTraversalExpr)
+		if !ok || len(st.Traversal) != 1 {
+			continue
+		}
+		if !verifAnd(st.Range().Start.Byte < pos.Byte, pos.Byte <= st.Range().End.Byte) {
+			continue
+		}
+		// (the operator is told by what it yields: `!` yields bool, `-` a number; no pointer identity)
+		want := un.Op.Type
+		if want != cty.Bool && want != cty.Number {
+			continue
+		}
+		for _, c := range cs.List {
+			switch c.Kind {
+			case lang.FunctionCandidateKind:
+				if f, known := d.pathCtx.Functions[c.Label]; known {
+					_, err := convert.Convert(cty.UnknownVal(f.ReturnType), want)
+					verifAssert(err == nil, "C08:function-candidate-in-a-unary-operand-converts-to-the-operand-type["+c.Label+"]"+at)
+				}
+			case lang.ReferenceCandidateKind:
+				for _, t := range d.pathCtx.ReferenceTargets {
+					if t.Addr.String() != c.Label || len(t.NestedTargets) > 0 {
+						continue
+					}
+					if t.Type == cty.NilType || t.Type == cty.DynamicPseudoType {
+						continue
+					}
+					_, err := convert.Convert(cty.UnknownVal(t.Type), want)
+					verifAssert(err == nil, "C08:reference-candidate-in-a-unary-operand-fits-the-operand-type["+c.Label+"]"+at)
+				}
+			}
+		}
+	}
+}
+
 // verifCheckArgCandidates: with the cursor in blank space inside the parentheses of a known call
 // (no token touches the cursor, so nothing is typed yet), the boolean literals are offered exactly
 // when the parameter of the argument slot under the cursor - counted in commas, as for signature
@@ -2086,6 +2186,38 @@ func verifCheckArgCandidates(d *PathDecoder, pos hcl.Pos, cs lang.Candidates) {
 
 // verifCheckSignature: the oracle counts, in the token list, the top-level commas of the innermost
 // known call between its opening parenthesis and the cursor.
+// verifCheckSignatureShape: wherever a signature is reported, it is that of a known function and
+// its parameter list is that function's fixed parameters followed by the variadic one, by name.
+func verifCheckSignatureShape(d *PathDecoder, sig *lang.FunctionSignature) {
+	if sig == nil {
+		return
+	}
+	at := verifCursorTag()
+	k := strings.Index(sig.Name, "(")
+	verifAssert(k > 0, "C20:signature-name-has-a-parameter-list"+at)
+	if k <= 0 {
+		return
+	}
+	f, known := d.pathCtx.Functions[sig.Name[:k]]
+	verifAssert(known, "C20:signature-names-a-known-function"+at)
+	if !known {
+		return
+	}
+	n := len(f.Params)
+	if f.VarParam != nil {
+		n++
+	}
+	verifAssert(len(sig.Parameters) == n, "C20:parameters-fixed-then-variadic"+at)
+	for i, p := range f.Params {
+		if i < len(sig.Parameters) {
+			verifAssert(sig.Parameters[i].Name == p.Name, "C20:signature-parameters-are-the-function's-own"+at)
+		}
+	}
+	if f.VarParam != nil && n-1 < len(sig.Parameters) {
+		verifAssert(sig.Parameters[n-1].Name == f.VarParam.Name, "C20:signature-parameters-are-the-function's-own"+at)
+	}
+}
+
 func verifCheckSignature(d *PathDecoder, pos hcl.Pos, sig *lang.FunctionSignature) {
 	body := d.pathCtx.Files[vf].Body.(*hclsyntax.Body)
 	var inner *hclsyntax.FunctionCallExpr
